@@ -9,10 +9,7 @@ CONSTANTS
   MaxSteps = 0
   WpMulti = 0
   RunSet = 0
-  DoEmit = FALSE
-  DoWp = TRUE
-  DoRun = TRUE
-INVARIANT WpExact
-INVARIANT Consistent
-INVARIANT Classified
+  DoEmit = TRUE
+  DoWp = FALSE
+  DoRun = FALSE
 CHECK_DEADLOCK FALSE
